@@ -108,6 +108,17 @@ class Composition(object):
         """Enable the len() function."""
         return len(self.tracks)
 
+    def __eq__(self, other):
+        """Enable the '==' operator for compositions (equal tracks in the
+        same order)."""
+        return isinstance(other, Composition) and self.tracks == other.tracks
+
+    def __ne__(self, other):
+        """Enable the '!=' operator for compositions."""
+        return not self == other
+
+    __hash__ = None
+
     def __repr__(self):
         """Return a string representing the class."""
         result = ""
